@@ -171,6 +171,21 @@ func runC19(p *Prog, r *Report, tier string) {
 			}
 		}
 	}
+	// the scalar getters behind those queries: found iff the stored bytes are present (non-nil),
+	// value = decode(stored bytes) — so "the query returns the current value" also for values that
+	// marshal to zero bytes (e.g. a configured size of 0)
+	flagGetterContract(p, r, flagBM)
+	flagGetterContract(p, r, flagSR)
+	for _, g := range []struct{ getter, region, zero string }{
+		{"GetMaxMessageBodySize", "MaxMessageBodySize/value/", "types.MaxMessageBodySize{}"},
+		{"GetNextAvailableNonce", "NextAvailableNonce/value/", "types.Nonce{}"},
+		{"GetSignatureThreshold", "SignatureThreshold/value/", "types.SignatureThreshold{}"},
+	} {
+		foundGetterContract(p, r, g.getter, g.region, fmt.Sprintf("[]byte(%q)", g.region), g.zero)
+	}
+	for _, role := range []struct{ role, getter string }{{"owner", "GetOwner"}, {"attester-manager", "GetAttesterManager"}, {"pauser", "GetPauser"}, {"token-controller", "GetTokenController"}} {
+		roleGetterContract(p, r, role.role, role.getter)
+	}
 	// hex lookup of token pairs pads to 32 bytes and delegates to the byte getter
 	if c := p.fc(r, p.Func("keeper.Keeper.GetTokenPairHex"), "GetTokenPairHex", [][2]string{{"PAD", "types.RemoteTokenPadded(p3)"}}); c != nil {
 		for _, ret := range allReturns(c.fn) {
